@@ -17,35 +17,35 @@ CLAIMS = {
     "C01": dict(
         text="Bounded: for every request inside the listed shapes (all values of the symbolic fields) Server::handle_message returns without any panic, overflow, out-of-bounds access or failed unwrap; plus the name/reader/RDATA leaf harnesses for every small buffer. The solver decides all values inside each shape; requests outside the shapes are not covered.",
         note="Shapes: concrete request skeletons with symbolic header/flag/type/class/TTL/count fields (see evidence samples); mock catalogs without loaded zones; RRL off; stubs S4 (should_slip), S7 (ArrayVec::try_extend_from_slice). TCP transport and requests with more than ~40 octets are outside the bound.",
-        ref="DESIGN.md 3.1, C01"),
+        ref="DESIGN.md A4, A4.1"),
     "C02": dict(
-        text="Bounded: every response produced for the listed request shapes decodes completely under the independent decoder (counts, framing, names, pointers, OPT at most once and only in the additional section, TSIG last). All values of the symbolic fields are decided by the solver.",
-        note="Responses of the no-zone shapes (question + OPT/TSIG only) and of the mock-zone answer shapes; the decoder is capped at the record counts the shape can produce, a response beyond the cap fails the check.",
-        ref="DESIGN.md 3.1, C02"),
+        text="Bounded: every response produced for the listed request shapes is exactly header + echoed question + at most one OPT record in the additional section: counts match the records present, the message ends exactly after the last record, the OPT record is well formed (root owner, RDLENGTH frames its empty RDATA). All values of the symbolic fields are decided by the solver.",
+        note="Responses of the no-zone shapes only (their layout is fully determined, so it is checked at concrete offsets; a generic decoder over the 512-octet buffer ran out of memory). Responses with answer data are decoded by the generic reference decoder in the query and writer families (C05, C12, C13).",
+        ref="DESIGN.md A4, A4.1"),
     "C03": dict(
         text="Bounded: for all 2^16 IDs and all 2^16 flag/opcode combinations in each request shape, the response echoes ID and opcode, sets QR, copies RD only for QUERY, clears RA and Z, echoes the question octet for octet; short messages, QR=1 and QDCOUNT>1 get no response.",
         note="QNAMEs: root, 'a.', two one-octet labels with fully symbolic octets; longer QNAMEs rely on the writer/name harnesses (C12, C14).",
-        ref="DESIGN.md C03"),
+        ref="DESIGN.md A4.1, B-C03"),
     "C04": dict(
-        text="Bounded: response length never exceeds the negotiated UDP limit for every advertised payload size (all u16) in the OPT shapes; truncation behaviour (TC, empty sections) for the large-RRset mock-zone shapes.",
-        note="TCP at handle_message level needs a 65535-octet buffer, which exhausts CBMC (measured 18 GB); the TCP branch is decided at handle_non_axfr_query level only. UDP/TCP response comparison is not claimed.",
-        ref="DESIGN.md C04"),
+        text="Bounded: response length never exceeds the negotiated UDP limit (512 without EDNS; advertised size clamped to [512, server size] with EDNS) in every server_small shape, for the advertised sizes and server sizes listed in the note; TC is never set in these shapes.",
+        note="Advertised sizes are concrete boundary values {0, 513, 4096, 65535} against server sizes {512, 520} (a symbolic size makes the writer limit symbolic and CBMC ran out of memory > 26 GB). TCP at handle_message level needs a 65535-octet buffer, which exhausts CBMC (18 GB+); truncation/TC behaviour is decided by the query family at handle_non_axfr_query level. The UDP-vs-TCP response comparison is not claimed.",
+        ref="DESIGN.md A4.1, B-C04"),
     "C07": dict(
         text="Bounded: for every opcode, QTYPE and QCLASS (all 2^16 each) in the Q shapes and every catalog answer kind (none / not yet loaded / failed to load), the RCODE is NOTIMP / REFUSED / SERVFAIL as the property states, with no records besides OPT/TSIG and AA clear. Longest-suffix selection in the real catalog is C22's obligation.",
         note="Catalog is a mock (M1): the claim is about the server's use of the Catalog trait contract.",
-        ref="DESIGN.md C07"),
+        ref="DESIGN.md A4.1, B-C07"),
     "C08": dict(
         text="Bounded: for every request in the malformed shapes (missing question, counts exceeding the message, trailing octets, OPT/TSIG in answer/authority, two OPTs, TSIG not last, unparseable OPT) the RCODE is FORMERR with no answer/authority data unless an EDNS version error was met earlier, judged by an independent in-order request classifier.",
         note="TSIG class/TTL errors are decided in the TSIG family (C10).",
-        ref="DESIGN.md C08"),
+        ref="DESIGN.md A4.1, B-C08"),
     "C09": dict(
-        text="Bounded: for every OPT CLASS (all u16) and every OPT TTL (all 2^32: extended RCODE, version, flags, including bit 31) in the OPT shapes, the response has exactly one OPT (root owner, class = server payload, version 0) iff the request's OPT was reached; version != 0 gives BADVERS without data; non-root owner gives FORMERR.",
-        note="Server payload 512 in quick tier, symbolic in [512,1232] in thorough tier.",
-        ref="DESIGN.md C09"),
+        text="Bounded: for every OPT TTL field (all 2^32 values: extended RCODE, version, flags, including bit 31) in the OPT shapes, the response has exactly one OPT (root owner, class = server payload, version 0) iff the request's OPT was reached; version != 0 gives BADVERS without data; non-root owner gives FORMERR.",
+        note="Server payload sizes 512 and 520; advertised sizes concrete boundary values (see C04).",
+        ref="DESIGN.md A4.1, B-C09"),
     "C14": dict(
         text="Exhaustive within length: for EVERY buffer of N octets (all 256 values per octet, N up to the stated bound) and every start offset including at/after the end, try_from_compressed, skip_compressed, try_from_uncompressed(_all) and validate_uncompressed(_all) agree with an independent RFC 1035 decoder on acceptance, name octets, label table (exercising the unsafe DST layout, with CBMC's memory-safety checks on) and first-chunk length.",
-        note="quick: compressed N<=4, uncompressed N<=5, validate/skip every length 0..=8; thorough: compressed N<=6(7), uncompressed N<=8, validate/skip 0..=14. Long names (63/255 boundaries) via NameBuilder harnesses in C16. Stub S7.",
-        ref="DESIGN.md C14"),
+        note="quick: compressed N=3, uncompressed N in {2,5}, validate/skip every length 0..=8, plus the 63-octet-label / 255-octet-name boundaries via a 270-octet buffer whose fourth length octet is symbolic; thorough adds compressed N=4,5, uncompressed N=8, validate/skip 0..=14. Compressed parsing of names longer than 5 octets is covered only through skip_compressed and the uncompressed parser (parse_compressed_name on the long buffer ran out of memory at 29 GB). Stub S7 (ArrayVec::try_extend_from_slice).",
+        ref="DESIGN.md A4, B-C14"),
 }
 
 GENERIC = dict(
